@@ -5,7 +5,7 @@ import (
 	"github.com/tendermint/tendermint/types"
 )
 
-func initChainReq(g *types.GenesisDoc) abci.RequestInitChain {
+func InitChainReq(g *types.GenesisDoc) abci.RequestInitChain {
 	vals := make([]*types.Validator, len(g.Validators))
 	for i, v := range g.Validators {
 		vals[i] = types.NewValidator(v.PubKey, v.Power)
